@@ -13,7 +13,9 @@ RULE = ("real AdaptationManager (fresh per case) over hierarchies built with typ
         "the adaptee) (deterministic) or on the call ordinal (non-deterministic stream), returning None or raising; queries "
         "adapt / adapt with default / supports_protocol / mro_distance_to_protocol / assignment to Instance, Supports, "
         "AdaptsTo traits in adapt modes no, yes, default with allow_none on/off, through the global manager (set and "
-        "restored per query).  Exhaustive scope: 12 hierarchies on 3 types x every ordered sequence of <= 2 offers x "
+        "restored per query); histories on one trait of one object (the same pool object assigned repeatedly, offers "
+        "registered and conditional factories flipped in between; both slots name / name_ observed by identity after "
+        "every step and compared with what adapt() answers now).  Exhaustive scope: 12 hierarchies on 3 types x every ordered sequence of <= 2 offers x "
         "every factory table x all (source, target) (quick); 12 hierarchies on 4 types x <= 3 offers x failing-offer sets "
         "(thorough).  Plus CPython list.sort(cmp_to_key) with arbitrary non-transitive tables and heapq against the two "
         "CPython models.  A case is non-trivial when a query went through _adapt (factory log non-empty) or raised; "
@@ -51,6 +53,13 @@ def corpus():
         "A|T=c0:;c1:;c2:;c3:0|" + _tables("T=c0:;c1:;c2:;c3:0") + "|0:0:2:0:n;1:0:1:0:n;2:1:2:1:n;3:2:0:2:n|0@-=n|a 3 2;d 3 2",
         "A|T=c0:;c1:;c2:;c3:0|" + _tables("T=c0:;c1:;c2:;c3:0") +
         "|0:0:2:0:n;1:0:1:0:n;2:1:2:1:n;3:2:0:2:n|0@-=n;2@1=n|a 3 2;d 3 2;t S 2 1 3 2;t A 1 1 3 2",
+        # histories (seeded change C17-m3): the same object re-assigned to AdaptsTo after a conditional factory
+        # changed its mind (f…) / after a more specific offer was registered (r…)
+        "A|T=i0:;h1:;h2:1|" + _tables("T=i0:;h1:;h2:1") + "|0:1:0:1:n;1:1:0:1:n|1@-=n|"
+        "h A 1 1 0 1 a0 f0@-=n f1@-=+ a0;h S 1 1 0 1 a0 f0@-=n f1@-=+ a0",
+        "A|T=i0:;h1:;h2:1|" + _tables("T=i0:;h1:;h2:1") + "|0:1:0:1:n|-|h A 1 1 0 2 a0 r1:2:0:2:n a0",
+        # F81 (known): … after an identity offer was registered adapt() gives the object itself; shadow stays stale
+        "A|T=i0:;h1:;h2:1|" + _tables("T=i0:;h1:;h2:1") + "|0:1:0:1:n|-|h A 1 1 0 2 a0 r1:2:0:2:p a0",
         # cycle
         "A|T=c0:;c1:;c2:|" + _tables("T=c0:;c1:;c2:") + "|0:0:1:0:n;1:1:0:1:n|-|a 0 2;d 0 2",
     ]
@@ -84,6 +93,8 @@ def generate(rng, tier):
         yield L.random_chain_case(rng)
     for i in range(n // 2):
         yield L.random_specific_case(rng)
+    for i in range(n):
+        yield L.random_history_case(rng)
     for i in range(n // 10):
         yield L.random_case(rng, ordinal=True)
     for i in range(n // 30):
@@ -193,6 +204,11 @@ def run_impl(case):
             continue
         kind = w[0]
         tags.add("q:" + kind)
+        if kind == "h":
+            o, hs = _run_history(q, hier, offers, ftab, tags)
+            outs.append(o)
+            hits += hs
+            continue
         if kind == "m":
             d = AdaptationManager.mro_distance_to_protocol(hier.types[int(w[1])], hier.types[int(w[2])])
             outs.append("-" if d is None else str(d))
@@ -282,6 +298,144 @@ def run_impl(case):
 
 
 _MISSING = object()
+
+
+def _show_h(pool, v):
+    """Identity-revealing display of a slot value in a history."""
+    if v is _MISSING:
+        return "-"
+    if v is None:
+        return "none"
+    for j, o in enumerate(pool):
+        if v is o:
+            return "obj%d" % j
+    if isinstance(v, L.Ad):
+        return "chain %s@%s#%s" % (">".join("o%d" % i for i in v.prov), v.root, v.step)
+    if isinstance(v, L.Default):
+        return "default#%s" % v.step
+    return "other"
+
+
+def _run_history(q, hier, offers, ftab, tags):
+    """h <I|S|A> <mode> <allowNone> <tgt> <pool> <step>...: one object, one trait, several assignments, with
+    offers registered and factory-table entries flipped in between.  Oracle after every successful
+    assignment: the trait applies exactly adapt() AS IT ANSWERS NOW — the adapted slot (name for Instance /
+    Supports, name_ for AdaptsTo) holds what adapt(value, klass) returns now, the other slot the value."""
+    from traits.adaptation import api as aapi
+    from traits.api import AdaptsTo, HasTraits, Instance, Supports
+    w = q.split()
+    cls, mode, an, t = w[1], int(w[2]), int(w[3]), int(w[4])
+    pool_toks = w[5].split(",")
+    steps = w[6:]
+    target = hier.types[t]
+    pool = [None if tok.endswith("n") else hier.instance(int(tok)) for tok in pool_toks]
+    ctx = L.Ctx(ftab)
+    if any(o[4] == "l" for o in offers):
+        hier.install_module()
+    mgr, info, objs = L.build_manager(hier, offers, ctx, want_objs=True)
+    tcls = {"I": Instance, "S": Supports, "A": AdaptsTo}[cls]
+    tr = tcls(target, factory=L.Default, adapt=("no", "yes", "default")[mode], allow_none=bool(an))
+    H = type("H", (HasTraits,), {"x": tr})
+    h = H()
+    outs, hits = [], []
+    tags.add("h:%s%d" % (cls, mode))
+    assigned = {}
+    for n, st in enumerate(steps):
+        L.CUR_STEP[0] = n
+        if st[0] == "r":
+            i, f, tt, k, kind = st[1:].split(":")
+            L.register_one(mgr, hier, (int(i), int(f), int(tt), int(k), kind), ctx, objs, info)
+            outs.append("ok")
+            tags.add("h-step:register")
+            continue
+        if st[0] == "f":
+            key, v = st[1:].split("=")
+            o, prov = key.split("@")
+            kk = (int(o), tuple(int(x) for x in prov.split(".")) if prov != "-" else ())
+            if v == "+":
+                ctx.bykey.pop(kk, None)
+            else:
+                ctx.bykey[kk] = v
+            outs.append("ok")
+            tags.add("h-step:flip")
+            continue
+        j = int(st[1:])
+        src = pool[j]
+        ctx.reset(src, root=j, step=n)
+        old = aapi.get_global_adaptation_manager()
+        aapi.set_global_adaptation_manager(mgr)
+        try:
+            _, exc = _guarded(lambda: setattr(h, "x", src))
+        finally:
+            aapi.set_global_adaptation_manager(old)
+        if isinstance(exc, _Timeout):
+            outs.append("timeout")
+            hits.append(_hit("nontermination", "history step %d of %s did not return" % (n, q), query=q, no_shrink=True))
+            break
+        log_s = ctx.show_log()
+        if exc is not None:
+            outs.append("err %s %s" % (exc_name(exc), log_s))
+            tags.add("h-res:err")
+            x = x_ = None
+        else:
+            x = h.__dict__.get("x", _MISSING)
+            x_ = h.__dict__.get("x_", _MISSING)
+            outs.append("x=%s x_=%s %s" % (_show_h(pool, x), _show_h(pool, x_), log_s))
+            tags.add("h-res:ok")
+        again = j in assigned
+        if again:
+            tags.add("h-step:reassign-same-object")
+        # ---------------- oracle: what does adapt() answer NOW for this object
+        if src is None or mode == 0:
+            assigned[j] = None
+            continue
+        L.CUR_STEP[0] = "ref"
+        ctx.reset(src, root=j, step="ref")
+        ref, ref_exc = _guarded(lambda: mgr.adapt(src, target, None))
+        L.CUR_STEP[0] = n
+        if ref_exc is not None:
+            if exc is None or type(exc) is not type(ref_exc):
+                hits.append(_hit("trait-history:differs:%s%d" % (cls, mode), "step %d: adapt raises %s, assignment gave %s" % (
+                    n, exc_name(ref_exc), exc), query=q))
+            continue
+        key = ("self",) if ref is src else ("none",) if ref is None else ("ad", ref.prov, ref.root)
+        if again and assigned[j] is not None and assigned[j] != key:
+            tags.add("h-step:reassign-with-new-answer")
+        assigned[j] = key
+        sig = None
+        what = None
+        if ref is None:
+            if mode == 1:
+                if exc is None or exc_name(exc) != "TraitError":
+                    sig, what = "trait-history:differs:%s%d" % (cls, mode), "adapt fails now, assignment must raise TraitError"
+            else:
+                slot = x_ if cls == "A" else x
+                if exc is not None or not isinstance(slot, L.Default):
+                    sig, what = "trait-history:differs:%s%d" % (cls, mode), "adapt fails now, the adapted slot must hold the default"
+        elif exc is not None:
+            sig, what = "trait-history:differs:%s%d" % (cls, mode), "adapt succeeds now but the assignment raised %s" % exc_name(exc)
+        else:
+            adapted, orig = (x_, x) if cls == "A" else (x, x_)
+
+            def same(a, b):
+                if a is b:
+                    return True
+                return isinstance(a, L.Ad) and isinstance(b, L.Ad) and (a.prov, a.root) == (b.prov, b.root)
+            if not same(adapted, ref):
+                if cls == "A" and ref is src:
+                    # known (F81): adapt() now gives the value itself, old_value is that same object: 'unchanged'
+                    sig = "trait-history:stale-shadow:adapt-returns-value-itself"
+                else:
+                    sig = "trait-history:stale-adapted-slot:%s%d" % (cls, mode)
+                what = "step %d: adapt(value, klass) now gives %s but the %s holds %s" % (
+                    n, _show_h(pool, ref), "shadow x_" if cls == "A" else "trait x", _show_h(pool, adapted))
+            elif cls != "I" and orig is not src:
+                sig = "trait-history:original-slot:%s%d" % (cls, mode)
+                what = "step %d: the original value is not in the other slot (%s)" % (n, _show_h(pool, orig))
+        if sig:
+            hits.append(_hit(sig, what, query=q, step=n))
+    L.CUR_STEP[0] = None
+    return " / ".join(outs), hits
 
 
 def _classify_t(ctx, src, r):
@@ -478,4 +632,19 @@ def shrink(case, fails):
     attempt(6, ";")
     attempt(4, ";")
     attempt(5, ";")
+    qs = f[6].split(";")
+    if len(qs) == 1 and qs[0].split()[:1] == ["h"]:
+        w = qs[0].split()
+        head, steps = w[:6], w[6:]
+        changed = True
+        while changed and len(steps) > 1:
+            changed = False
+            for i in range(len(steps) - 1, -1, -1):
+                cand = steps[:i] + steps[i + 1:]
+                g = list(f)
+                g[6] = " ".join(head + cand)
+                if cand and fails("|".join(g)):
+                    steps = cand
+                    f[6] = g[6]
+                    changed = True
     return "|".join(f)
